@@ -302,9 +302,17 @@ def nodeIdJ (n : NodeId) : Json :=
   .obj (optField kType ((identTypeId n.id).map natJ) ++ [(kId, identIdJ n.id)] ++
     optField kNamespace (if n.ns = 0 then none else some (natJ n.ns)))
 
-def expNodeIdJ (e : ExpNodeId) : Json :=
+/-- the `Namespace` field of an ExpandedNodeId.  `uriJson = true` (current source): a non-null
+namespace uri is written as a JSON string; otherwise (and always in the pinned source) the index,
+omitted when 0 -/
+def nsFieldJ (uriJson : Bool) (uri : Option (List Char)) (ns : Nat) : Option Json :=
+  match uriJson, uri with
+  | true, some u => some (.str u)
+  | _, _ => if ns = 0 then none else some (natJ ns)
+
+def expNodeIdJ (uriJson : Bool) (e : ExpNodeId) : Json :=
   .obj (optField kType ((identTypeId e.node.id).map natJ) ++ [(kId, identIdJ e.node.id)] ++
-    optField kNamespace (if e.node.ns = 0 then none else some (natJ e.node.ns)) ++
+    optField kNamespace (nsFieldJ uriJson e.uri e.node.ns) ++
     optField kServerUri (if e.svr = 0 then none else some (natJ e.svr)))
 
 def qnameJ (q : QName) : Json := .obj [(kUri, natJ q.ns), (kName, optStrJ q.name)]
@@ -329,6 +337,17 @@ def float64J (bits : Nat) : Json :=
   | .inf true => .str ['-', 'I', 'n', 'f', 'i', 'n', 'i', 't', 'y']
   | .fin _ _ _ => .num (.flt bits)
 
+/-- `mask` = union of all defined StatusCode bits.  The flags select the pinned (false) or the repaired
+(true) source: `xmlNull` a missing XmlElement body read as the null XmlElement; `floatRounded` the Float
+range test applied to the value rounded to f32; `uriJson` the ExpandedNodeId namespace uri written/read
+as the string form of `Namespace`; `arrayErr` serialising an array variant is an error, not a panic. -/
+structure Cfg where
+  mask : Nat
+  xmlNull : Bool
+  floatRounded : Bool
+  uriJson : Bool
+  arrayErr : Bool
+
 def variantJ (id : Nat) (body : Option Json) : Json :=
   .obj ((kType, natJ id) :: optField kBody body)
 
@@ -340,7 +359,7 @@ def bindJ (r : Res Json) (f : Json → Json) : Res Json :=
 
 mutual
   /-- `to_value(&Variant)`; `panic` = the serialiser panics (arrays) -/
-  def varJ : Var → Res Json
+  def varJ (cfg : Cfg) : Var → Res Json
     | .empty => .ok (variantJ 0 none)
     | .bool b => .ok (variantJ 1 (some (.bool b)))
     | .sbyte v => .ok (variantJ 2 (some (.num (.int v))))
@@ -359,17 +378,17 @@ mutual
     | .byteString b => .ok (variantJ 15 (some (byteStringJ b)))
     | .xml s => .ok (variantJ 16 (some (optStrJ s)))
     | .nodeId n => .ok (variantJ 17 (some (nodeIdJ n)))
-    | .expNodeId e => .ok (variantJ 18 (some (expNodeIdJ e)))
+    | .expNodeId e => .ok (variantJ 18 (some (expNodeIdJ cfg.uriJson e)))
     | .status c => .ok (variantJ 19 (some (natJ c)))
     | .qname q => .ok (variantJ 20 (some (qnameJ q)))
     | .ltext l => .ok (variantJ 21 (some (ltextJ l)))
-    | .dataValue d => bindJ (dvalJ d) (fun j => variantJ 23 (some j))
-    | .variant v => bindJ (varJ v) (fun j => variantJ 24 (some j))
-    | .array => .panic
+    | .dataValue d => bindJ (dvalJ cfg d) (fun j => variantJ 23 (some j))
+    | .variant v => bindJ (varJ cfg v) (fun j => variantJ 24 (some j))
+    | .array => if cfg.arrayErr then .err else .panic
   /-- `to_value(&DataValue)` -/
-  def dvalJ : DVal → Res Json
+  def dvalJ (cfg : Cfg) : DVal → Res Json
     | .mk (some v) st sts sp vts vp =>
-      bindJ (varJ v) (fun j => .obj ((kValue, j) :: dvalRest st sts sp vts vp))
+      bindJ (varJ cfg v) (fun j => .obj ((kValue, j) :: dvalRest st sts sp vts vp))
     | .mk none st sts sp vts vp => .ok (.obj (dvalRest st sts sp vts vp))
   /-- the five non-recursive fields -/
   def dvalRest (st : Option Nat) (sts : Option DT) (sp : Option Nat) (vts : Option DT) (vp : Option Nat) :
@@ -585,12 +604,18 @@ def nodeIdFromJ (j : Json) : Option NodeId :=
     | _, _, _ => none
   | _ => none
 
-def expNodeIdFromJ (j : Json) : Option ExpNodeId :=
+/-- reading the `Namespace` field: a JSON string is the uri (current source), a number the index -/
+def nsUriFromJ (uriJson : Bool) (o : Option Json) : Option (Nat × Option (List Char)) :=
+  match uriJson, o with
+  | true, some (.str u) => some (0, some u)
+  | _, n => (indexField 65535 n).map fun i => (i, none)
+
+def expNodeIdFromJ (uriJson : Bool) (j : Json) : Option ExpNodeId :=
   match structFields [kType, kId, kNamespace, kServerUri] j with
   | some [t, id, ns, su] =>
-    match optU 4294967295 (optPresent t), id, indexField 65535 (optPresent ns),
+    match optU 4294967295 (optPresent t), id, nsUriFromJ uriJson (optPresent ns),
         indexField 4294967295 (optPresent su) with
-    | some t, some id, some ns, some svr => (identFromJ (t.getD 0) id).map fun i => ⟨⟨ns, i⟩, none, svr⟩
+    | some t, some id, some (ns, uri), some svr => (identFromJ (t.getD 0) id).map fun i => ⟨⟨ns, i⟩, uri, svr⟩
     | _, _, _, _ => none
   | _ => none
 
@@ -646,14 +671,6 @@ def optDt : Option Json → Option (Option DT)
 def optStatus (mask : Nat) : Option Json → Option (Option Nat)
   | none => some none
   | some j => (statusFromJ mask j).map some
-
-/-- `mask` = union of all defined StatusCode bits.  The two flags select the pinned (false) or the
-repaired (true) source: a missing XmlElement body read as the null XmlElement; the Float range test
-applied to the value rounded to f32 instead of to the f64. -/
-structure Cfg where
-  mask : Nat
-  xmlNull : Bool
-  floatRounded : Bool
 
 /-- Float body → f32 pattern -/
 def floatBody (cfg : Cfg) (body : Option Json) : Option Nat :=
@@ -722,7 +739,7 @@ mutual
               | none => if cfg.xmlNull then .ok (.xml none) else .err
               | some j => okOr Var.xml (uaStringJ (some j))
             | 17 => okOr Var.nodeId (requireJ nodeIdFromJ body)
-            | 18 => okOr Var.expNodeId (requireJ expNodeIdFromJ body)
+            | 18 => okOr Var.expNodeId (requireJ (expNodeIdFromJ cfg.uriJson) body)
             | 19 => okOr (fun c => Var.status (Nat.land c cfg.mask)) (requireJ (uintJ 4294967295) body)
             | 20 => okOr Var.qname (requireJ qnameFromJ body)
             | 21 => okOr Var.ltext (requireJ ltextFromJ body)
@@ -765,11 +782,11 @@ mutual
       | _ => .err
 end
 
-/-- the CURRENT source (after the two `fix:` commits) -/
-def current (mask : Nat) : Cfg := ⟨mask, true, true⟩
+/-- the CURRENT source (after the four `fix:` commits) -/
+def current (mask : Nat) : Cfg := ⟨mask, true, true, true, true⟩
 
 /-- the pinned source -/
-def pinned (mask : Nat) : Cfg := ⟨mask, false, false⟩
+def pinned (mask : Nat) : Cfg := ⟨mask, false, false, false, false⟩
 
 mutual
   /-- nesting depth, the fuel `varFromJ` needs -/
